@@ -472,6 +472,15 @@ def pattern_model(name):
     if name.startswith('llvm.expect.'): return m_ret0
     if name.startswith('llvm.is.constant.'): return m_zero
     if name.startswith('llvm.objectsize.'): return lambda E, fr, args: M64
+    if name.startswith('llvm.load.relative.'):
+        # relative lookup table (clang's rel-lookup-table-converter): result = base + sext(i32 at base + offset)
+        def load_relative(E, fr, args):
+            base = cint(E, args[0], 'relative table base'); off = cint(E, args[1], 'relative table offset')
+            if off >= 1 << 63: off -= 1 << 64
+            d = cint(E, E.load(base + off, 4), 'relative table entry')
+            if d >= 1 << 31: d -= 1 << 32
+            return (base + d) & M64
+        return load_relative
     if name.startswith('llvm.'):
         return intrinsic(name)
     return None
@@ -535,6 +544,14 @@ def install(E):
     M['__cxa_atexit'] = m_zero
     M['_ZNSt8ios_base4InitC1Ev'] = m_nop; M['_ZNSt8ios_base4InitD1Ev'] = m_nop
     M['pthread_self'] = lambda E, fr, args: 1
+    # std::system_category() / std::generic_category(): references to two distinct immortal objects (only their identity is used)
+    def category_model(tag):
+        def f(E, fr, args):
+            key = '_category_' + tag
+            if not hasattr(E, key) or getattr(E, key) is None: setattr(E, key, new_obj(E, 16, 'error_category:' + tag))
+            return getattr(E, key)
+        return f
+    M['_ZNSt3_V215system_categoryEv'] = category_model('system'); M['_ZNSt3_V216generic_categoryEv'] = category_model('generic')
     M['pthread_mutex_lock'] = m_zero; M['pthread_mutex_unlock'] = m_zero; M['pthread_mutex_trylock'] = m_zero
     M['pthread_mutex_init'] = m_zero; M['pthread_mutex_destroy'] = m_zero
     M['llvm.stacksave'] = m_zero; M['llvm.stackrestore'] = m_nop
